@@ -448,10 +448,6 @@ Proof.
     assert (p < n) by (apply nth_error_Some; congruence).
     destruct (mem i c); [apply YW_once; auto|constructor; auto].
   - (* Capture *) cbn in Hsim. destruct Hsim as [Hsim Hg].
-    assert (Hs0 : exists s0, (if hb then set_sb g (Some p) s else Some s) = Some s0 /\ wf s0).
-    { destruct hb eqn:Ehb; [|eexists; eauto].
-      apply set_sb_wf; auto. destruct Hs as (_ & _ & _ & _ & H5). rewrite (H5 Ehb). auto. }
-    destruct Hs0 as [s0 [E0 W0]]. rewrite E0.
     apply YW_map_yield.
     + intros q s1 W.
       assert (W2 : wf (if Nat.leb (pcount (cs_ s1)) g then set_pcount (S g) s1 else s1))
